@@ -93,28 +93,29 @@ type Decl struct {
 }
 
 type Contracts struct {
-	Decls   map[string]*Decl
-	Funcs   map[string]*FuncSpec // key: pkg + "." + Key
-	Types   map[string]*TypeSpec // key: pkg + "." + Name
-	Defines map[string]*Define
-	Models  map[string]string // model field name -> sort
-	Axioms  []*Axiom
-	Lemmas  []*Axiom
-	Files   []string
-	NLines  int
-	Assumes []string // human readable list of assumed contracts
+	GlobalNonNil map[string]bool // package-level pointer variables initialised once with a non-nil value
+	Decls        map[string]*Decl
+	Funcs        map[string]*FuncSpec // key: pkg + "." + Key
+	Types        map[string]*TypeSpec // key: pkg + "." + Name
+	Defines      map[string]*Define
+	Models       map[string]string // model field name -> sort
+	Axioms       []*Axiom
+	Lemmas       []*Axiom
+	Files        []string
+	NLines       int
+	Assumes      []string // human readable list of assumed contracts
 }
 
-var topKeywords = map[string]bool{"declare": true, "type": true, "func": true, "iface": true, "define": true, "assume": true, "model": true, "axiom": true, "lemma": true}
+var topKeywords = map[string]bool{"global": true, "declare": true, "type": true, "func": true, "iface": true, "define": true, "assume": true, "model": true, "axiom": true, "lemma": true}
 var subKeywords = map[string]bool{"requires": true, "ensures": true, "xensures": true, "invariant": true, "decreases": true,
 	"modifies": true, "let": true, "loop": true, "implements": true, "props": true, "pure": true, "nopanic": true, "inline": true,
 	"view": true, "modelfield": true, "guarded_by": true, "trusted": true, "safe": true, "opaque": true, "noverify": true, "immutable": true,
-	"defines": true, "hint": true, "assumes": true, "uses": true, "hypothesis": true, "mayblock": true, "terminates": true, "nilok": true, "noinv": true, "noxinv": true, "noframe": true, "constructor": true}
+	"assumeat": true, "defines": true, "hint": true, "assumes": true, "uses": true, "hypothesis": true, "mayblock": true, "terminates": true, "nilok": true, "noinv": true, "noxinv": true, "noframe": true, "constructor": true}
 
 var clauseHead = regexp.MustCompile(`^([a-z_]+)(\[[A-Za-z0-9, ]+\])?\s*(.*)$`)
 
 func LoadContracts(files []string) (*Contracts, error) {
-	c := &Contracts{Decls: map[string]*Decl{}, Funcs: map[string]*FuncSpec{}, Types: map[string]*TypeSpec{}, Defines: map[string]*Define{}, Models: map[string]string{}}
+	c := &Contracts{GlobalNonNil: map[string]bool{}, Decls: map[string]*Decl{}, Funcs: map[string]*FuncSpec{}, Types: map[string]*TypeSpec{}, Defines: map[string]*Define{}, Models: map[string]string{}}
 	for _, f := range files {
 		if err := c.loadFile(f); err != nil {
 			return nil, err
@@ -192,6 +193,12 @@ func (c *Contracts) loadFile(path string) error {
 		w := firstWord(b.head.text)
 		rest := strings.TrimSpace(strings.TrimPrefix(b.head.text, w))
 		switch w {
+		case "global":
+			f := strings.Fields(rest)
+			if len(f) != 2 || f[1] != "nonnil" {
+				return fmt.Errorf("%s:%d: global NAME nonnil", path, b.head.line)
+			}
+			c.GlobalNonNil[pkg+"."+f[0]] = true
 		case "declare":
 			m := regexp.MustCompile(`^(\w+)\((.*)\)\s*(\w+)$`).FindStringSubmatch(rest)
 			if m == nil {
@@ -404,8 +411,9 @@ func (c *Contracts) loadFile(path string) error {
 					for _, k := range strings.Split(cl.Text, ",") {
 						fs.Implements = append(fs.Implements, strings.TrimSpace(k))
 					}
-				case "hint":
-					// hint N: expr
+				case "hint", "assumeat":
+					// hint N: expr      (proved, then assumed)
+					// assumeat N: expr  (assumed only: an explicit, listed assumption at a program point)
 					i := strings.Index(cl.Text, ":")
 					if i < 0 {
 						return fmt.Errorf("%s:%d: hint N: expr", path, s.line)
@@ -508,7 +516,9 @@ func parseClause(l rawLine, path string) (*Clause, error) {
 	}
 	switch cl.Kind {
 	case "decreases":
-		if e, err := ParseExpr(cl.Text); err == nil {
+		if strings.TrimSpace(cl.Text) == "*" {
+			// termination not claimed
+		} else if e, err := ParseExpr(cl.Text); err == nil {
 			cl.E = e
 		} else if _, err2 := ParseExpr("tuple(" + cl.Text + ")"); err2 != nil {
 			return nil, fmt.Errorf("%s:%d: %v", path, l.line, err)
